@@ -693,6 +693,7 @@ def explore(ctx, spec, judges, bound, limit, nrandom, rng, prop_key=""):
     mode = "dfs"
     rw = 0
     tag = "overlap" if spec.get("mode") == "async" else "thread"
+    deep = sched.Deepening(bound, limit)
     while True:
         r = run_schedule(spec, prefix=prefix if mode == "dfs" else (), rng=None if mode == "dfs" else rng)
         s = r["sched"]
@@ -721,9 +722,9 @@ def explore(ctx, spec, judges, bound, limit, nrandom, rng, prop_key=""):
         if len(set(x[1] for x in s.trace)) > 1:
             ctx.cnt[tag + "_schedules_with_switches"] += 1
         if mode == "dfs":
-            nxt = sched.next_prefix(s.trace, bound)
-            if nxt is None or n >= limit:
-                if nxt is None:
+            nxt = deep.next(s.trace)
+            if nxt is None:
+                if deep.exhausted:
                     ctx.cnt[tag + "_programs_dfs_exhausted"] += 1
                 mode = "random"
                 if nrandom <= 0:
